@@ -83,53 +83,30 @@ pub fn string_ref(vm: &mut Vm) -> Result<VCell, Error> {
     }
 }
 
-fn char_offset(s: &str, idx: usize) -> Result<usize, Error> {
-    s.char_indices()
-        .nth(idx)
-        .map(|it| it.0)
-        .ok_or_else(|| InvalidStringIndex(idx, s.chars().count().saturating_sub(1)))
-}
-
-fn char_offset_inclusive(s: &str, idx: usize) -> Result<usize, Error> {
-    s.char_indices()
-        .nth(idx)
-        .map(|it| it.0 + it.1.len_utf8())
-        .ok_or_else(|| InvalidStringIndex(idx, s.chars().count().saturating_sub(1)))
-}
-
 fn char_substring_offset(
     s: &str,
     start: Option<usize>,
     end: Option<usize>,
 ) -> Result<(usize, usize), Error> {
     let len = s.chars().count();
+    let start = start.unwrap_or(0);
+    let end = end.unwrap_or(len);
 
-    if let (Some(start), Some(end)) = (start, end) {
-        if start == end {
-            return Ok((0, 0));
-        }
-        if end < start {
-            return Err(InvalidSyntax(
-                "invalid substring indices: end < start".into(),
-            ));
-        }
+    if start > len {
+        return Err(InvalidStringIndex(start, len.saturating_sub(1)));
+    }
+    if end > len {
+        return Err(InvalidStringIndex(end, len.saturating_sub(1)));
+    }
+    if end < start {
+        return Err(InvalidSyntax(
+            "invalid substring indices: end < start".into(),
+        ));
     }
 
-    if start == Some(len) {
-        return Ok((0, 0));
-    }
-
-    let start = match start {
-        Some(start) => char_offset(s, start)?,
-        None => 0,
-    };
-
-    let end = match end {
-        Some(end) => char_offset_inclusive(s, end - 1)?,
-        None => s.len(),
-    };
-
-    Ok((start, end))
+    // byte offset of the character at idx, or of the end of the string
+    let offset = |idx: usize| s.char_indices().nth(idx).map(|it| it.0).unwrap_or(s.len());
+    Ok((offset(start), offset(end)))
 }
 
 pub fn string_list(vm: &mut Vm) -> Result<VCell, Error> {
@@ -246,11 +223,8 @@ pub fn string_fill(vm: &mut Vm) -> Result<VCell, Error> {
     let mut s = s.borrow_mut();
     let s = s.deref_mut();
 
-    let count = match (start, end) {
-        (Some(start), Some(end)) if end >= start => end - start,
-        (Some(start), None) => s.chars().count() - start,
-        _ => s.chars().count(),
-    };
+    let len = s.chars().count();
+    let count = end.unwrap_or(len).saturating_sub(start.unwrap_or(0));
 
     let (start, end) = char_substring_offset(s, start, end)?;
     let fill = std::iter::repeat_n(c, count).collect::<String>();
